@@ -34,12 +34,15 @@ META = {
                   "sync.Pool reuse is likely but not forced.",
 }
 
-ALL_INV = ["TypeOK", "Ownership", "HandlerSeesOwn", "LoggerOwn", "FinishedCode", "ClientExact", "RecordsOwn",
+ALL_INV = ["TypeOK", "FreshAfterReset", "Ownership", "HandlerSeesOwn", "LoggerOwn", "FinishedCode", "ClientExact", "RecordsOwn",
            "OncePerRequest"]
 
 # design mutation -> an invariant it must break (negative model-checking runs)
 NEGATIVE = [
     ("fastPathDisabled", "HandlerSeesOwn"),   # run with the middleware level disabled
+    ("urlRequestURI", "LoggerOwn"),           # request_uri rebuilt from the parsed URL (absolute / authority form)
+    ("stickyHijack", "FreshAfterReset"),      # a hijacked flag that Reset does not clear
+    ("cloneRequest", "HandlerSeesOwn"),       # deep copy: the Trailer map is no longer the client's
     ("putRwBeforeFinished", "FinishedCode"),
     ("putRwBeforeHandler", "ClientExact"),
     ("putReqBeforeHandler", "HandlerSeesOwn"),
@@ -70,7 +73,7 @@ GATES_COARSE = '{"hpre", "readcode"}'
 
 
 def _consts(procs, init, retain=True, policy="any", variant="asWritten", keep=True, maxobj=None, gates=None,
-            pols=None, mwon=True):
+            pols=None, mwon=True, forms="FormsOAU"):
     c = {"Procs": "{%s}" % ", ".join(str(i) for i in range(1, procs + 1)),
          "InitOps": "<- " + init if init else "{}",
          "MaxObj": maxobj or procs,
@@ -78,6 +81,7 @@ def _consts(procs, init, retain=True, policy="any", variant="asWritten", keep=Tr
          "PolA": '"%s"' % (pols or [policy] * 3)[0],
          "PolQ": '"%s"' % (pols or [policy] * 3)[1],
          "PolW": '"%s"' % (pols or [policy] * 3)[2],
+         "FormOf": "<- " + forms,
          "MwEnabled": "TRUE" if mwon else "FALSE",
          "Variant": '"%s"' % variant,
          "KeepRecords": "TRUE" if keep else "FALSE"}
@@ -183,17 +187,24 @@ def _run(ctx):
         cfg = "MwChainNeg_%s.cfg" % variant
         write_cfg(d / cfg, "Spec", dict(chain_c, MaxN=3, Rounds=2, Variant='"%s"' % variant), invariants=[inv])
         jobs.add("chain-neg-" + variant, tlc("MwChain", cfg, "chain-neg:" + variant, expect_ok=False, workers=2))
-    write_cfg(d / "CodeRecMC_run.cfg", "Spec", {"MaxSteps": 6 if q else 7, "Codes": CODES_Q},
-              invariants=["CodeOK", "LastWins"])
-    jobs.add("coderec-mc", tlc("CodeRec", "CodeRecMC_run.cfg", "coderec-mc"))
+    write_cfg(d / "CodeRecMC_run.cfg", "Spec", {"MaxSteps": 6, "Codes": CODES_Q, "Variant": '"asWritten"'},
+              invariants=["FreshAfterReset", "CodeOK", "LastWins"])
+    write_cfg(d / "CodeRecNeg_run.cfg", "Spec", {"MaxSteps": 4, "Codes": "{200}", "Variant": '"stickyHijack"'},
+              invariants=["FreshAfterReset"])
+    jobs.add("coderec-neg", tlc("CodeRec", "CodeRecNeg_run.cfg", "coderec-neg:stickyHijack", expect_ok=False, workers=2))
+    if not q:  # quick: the generator run below checks the same invariants to depth 5
+        jobs.add("coderec-mc", tlc("CodeRec", "CodeRecMC_run.cfg", "coderec-mc"))
 
     for retain in (True, False):
         cfg = "LogMwMC2_%s.cfg" % ("retain" if retain else "copy")
-        write_cfg(d / cfg, "Spec", _consts(2, "MCAll", retain=retain), invariants=ALL_INV, view="View")
+        write_cfg(d / cfg, "Spec", _consts(2, "MCAll" if retain or not q else "MCNeg", retain=retain), invariants=ALL_INV, view="View")
         jobs.add("logmw-mc2-%s" % retain, tlc("LogMwMC", cfg, "logmw-mc: 2 requests, 49 behaviour pairs, retain=%s" % retain))
     write_cfg(d / "LogMwMC2_classes.cfg", "Spec", _consts(2, "MCClasses"), invariants=ALL_INV, view="View")
     jobs.add("logmw-mc2-classes", tlc("LogMwMC", "LogMwMC2_classes.cfg",
                                       "logmw-mc: 2 requests, 49 pairs of status-class behaviours (101, 1xx, 204, 304, 599, 999)"))
+    write_cfg(d / "LogMwMC2_hijack.cfg", "Spec", _consts(2, "MCHijack", forms="FormsAUS"), invariants=ALL_INV, view="View")
+    jobs.add("logmw-mc2-hijack", tlc("LogMwMC", "LogMwMC2_hijack.cfg",
+                                     "logmw-mc: 2 requests, 49 pairs of Hijack / Flush behaviours, absolute + authority form"))
     # the middleware's level filtered out by the base handler: no started / finished, same obligations otherwise
     write_cfg(d / "LogMwMC2_off.cfg", "Spec", _consts(2, "MCAll" if not q else "MCNeg", mwon=False), invariants=ALL_INV,
               view="View")
@@ -225,7 +236,7 @@ def _run(ctx):
         pols[k] = "any"
         cfg = "LogMwMC3_%s.cfg" % pool
         # handler behaviours only matter to the response-writer pool: it gets the larger set in thorough
-        init = "MCSome" if (not q and pool == "rw") else "MCNeg"
+        init = "MCTriple1" if q else ("MCSome" if pool == "rw" else "MCNeg")
         write_cfg(d / cfg, "Spec", _consts(3, init, pols=pols), invariants=ALL_INV, view="View")
         jobs.add("logmw-mc3-" + pool, tlc("LogMwMC", cfg, "logmw-mc: 3 requests, all interleavings, %s pool" % pool,
                                           timeout=1500))
@@ -235,13 +246,14 @@ def _run(ctx):
                                   workers=max(4, NCPU // 2), timeout=2400))
     for variant, inv in NEGATIVE:
         cfg = "LogMwNeg_%s.cfg" % variant
-        write_cfg(d / cfg, "Spec", _consts(2, "MCNeg", variant=variant, mwon=variant != "fastPathDisabled"),
+        write_cfg(d / cfg, "Spec", _consts(2, "MCHijack" if variant == "stickyHijack" else "MCNeg", variant=variant,
+                                           mwon=variant != "fastPathDisabled"),
                   invariants=[inv], view="View")
         jobs.add("neg-" + variant, tlc("LogMwMC", cfg, "logmw-neg:" + variant, expect_ok=False, workers=2))
 
     # ---- 2. generators
-    write_cfg(d / "CodeRecGen_run.cfg", "GSpec", {"MaxSteps": 5, "Codes": CODES_Q if q else CODES_T},
-              invariants=["Emit", "CodeOK", "LastWins"])
+    write_cfg(d / "CodeRecGen_run.cfg", "GSpec", {"MaxSteps": 5, "Codes": CODES_Q if q else CODES_T, "Variant": '"asWritten"'},
+              invariants=["Emit", "FreshAfterReset", "CodeOK", "LastWins"])
     jobs.add("coderec-gen", tlc("CodeRecGen", "CodeRecGen_run.cfg", "coderec-gen"))
 
     # Schedule generators write to one file each (separate scratch copies of the module: the file name is fixed
@@ -250,14 +262,14 @@ def _run(ctx):
                "OncePerRequest"]
     sched_files = []
 
-    def sched_gen(tag, procs, init, gates, simulate=None, depth=None, retain=True, mwon=True):
+    def sched_gen(tag, procs, init, gates, simulate=None, depth=None, retain=True, mwon=True, forms="FormsOAU"):
         mod = "LogMwGen_" + tag
         out = "logmw_sched_%s.ndjson" % tag
         src = (d / "LogMwGen.tla").read_text()
         src = src.replace("MODULE LogMwGen ", "MODULE %s " % mod, 1).replace("logmw_sched.ndjson", out)
         (d / (mod + ".tla")).write_text(src)
         cfg = mod + ".cfg"
-        write_cfg(d / cfg, "GSpec", _consts(procs, init, retain=retain, policy="min", gates=gates, mwon=mwon),
+        write_cfg(d / cfg, "GSpec", _consts(procs, init, retain=retain, policy="min", gates=gates, mwon=mwon, forms=forms),
                   invariants=gen_inv)
         sched_files.append((tag, d / out, simulate is None))
         if simulate is None:
@@ -265,10 +277,12 @@ def _run(ctx):
         else:
             jobs.add("gen-" + tag, tlc(mod, cfg, "sched-sim:" + tag, simulate=simulate, depth=depth or 200, workers=4))
 
-    sched_gen("life2", 2, "GenAll", GATES_LIFE)
-    sched_gen("pool2", 2, "GenSome" if q else "GenAll", GATES_POOL, retain=False)
-    sched_gen("classes2", 2, "GenClasses", GATES_COARSE if q else GATES_LIFE)
-    sched_gen("off2", 2, "GenSome", '{"withattrs", "hpre", "hpost", "readcode"}', mwon=False)
+    sched_gen("life2", 2, "GenAll", GATES_LIFE, forms="FormsOAU")
+    sched_gen("pool2", 2, "GenSome" if q else "GenAll", GATES_POOL, retain=False, forms="FormsUEO")
+    sched_gen("hijack2", 2, "GenHijack", GATES_COARSE if q else '{"hpre", "cw", "hpost", "readcode"}', forms="FormsAUS")
+    sched_gen("classes2", 2, "GenClasses", GATES_COARSE if q else GATES_LIFE, forms="FormsSAE")
+    sched_gen("off2", 2, "GenSome", '{"withattrs", "hpre", "readcode"}' if q else '{"withattrs", "hpre", "hpost", "readcode"}',
+              mwon=False, forms="FormsAUS")
     # composed topologies (LogMwComposeGen writes logmw_sched_compose.ndjson)
     write_cfg(d / "LogMwComposeGen_run.cfg", "GSpec",
               dict(comp, Policy='"min"', GateSet='{"hpre", "hpost", "readcode"}' if q
@@ -276,13 +290,13 @@ def _run(ctx):
               invariants=["Emit"] + COMPOSE_INV)
     sched_files.append(("compose", d / "logmw_sched_compose.ndjson", True))
     jobs.add("gen-compose", tlc("LogMwComposeGen", "LogMwComposeGen_run.cfg", "sched-gen:compose", timeout=1500))
-    sched_gen("fine2", 2, "GenEvery", GATES_ALL, simulate=2000 if q else 20000)
+    sched_gen("fine2", 2, "GenEvery", GATES_ALL, simulate=2000 if q else 20000, forms="FormsEOA")
     if q:
-        sched_gen("coarse3", 3, "GenSome", GATES_COARSE, simulate=1500)
+        sched_gen("coarse3", 3, "GenSome", GATES_COARSE, simulate=1500, forms="FormsAUS")
     else:
         sched_gen("write2", 2, "GenAll", GATES_WRITE)
-        sched_gen("coarse3", 3, "GenThree", GATES_COARSE)
-        sched_gen("fine3", 3, "GenAll", GATES_ALL, simulate=8000, depth=300)
+        sched_gen("coarse3", 3, "GenThree", GATES_COARSE, forms="FormsAUS")
+        sched_gen("fine3", 3, "GenEvery3", GATES_ALL, simulate=8000, depth=300, forms="FormsSAE")
 
     res = jobs.join()
     for name, r in res.items():
@@ -302,6 +316,9 @@ def _run(ctx):
             raise CheckerError("LogMw design mutation %s does not violate %s (got %s):\n%s"
                                % (variant, inv, r.violated, "\n".join(r.out.splitlines()[-25:])))
         neg_ok.append("LogMw/%s -> %s" % (variant, inv))
+    if res["coderec-neg"].violated != "FreshAfterReset":
+        raise CheckerError("CodeRec design mutation stickyHijack does not violate FreshAfterReset")
+    neg_ok.append("CodeRec/stickyHijack -> FreshAfterReset")
     for inv in ("PoolPurity", "ClientExact"):
         r = res["compose-neg-" + inv]
         if r.violated != inv:
@@ -324,6 +341,7 @@ def _run(ctx):
     ctx.extra["middleware_lists_replayed"] = s1["replayed"]
     ctx.extra["wrap_calls_over_shared_slices"] = s1["wrap_calls"]
     ctx.extra["coderecorder_call_sequences_replayed"] = s2["replayed"]
+    ctx.extra["coderecorder_optional_interfaces"] = s2.get("wrapper_interfaces", "")
     policy = s2.get("code_policy_differs", 0)
     diverge = 0
 
@@ -340,7 +358,7 @@ def _run(ctx):
         ctx.vh(args, timeout=1500)
         s = ctx.collect(ctx.scratch / ("sched_%s.res" % tag))
         if first:
-            write_cfg(d / "LogMwTraceS.cfg", "TSpec", _consts(3, None, policy="any", keep=False, maxobj=1000000))
+            write_cfg(d / "LogMwTraceS.cfg", "TSpec", _consts(3, None, policy="any", keep=False, maxobj=1000000, forms="FormsOrigin"))
             validate_trace(ctx, d, "LogMwTrace", "LogMwTraceS.cfg", "logmw_trace.ndjson",
                            "LogMiddleware event log of replayed schedules")
             ctx.extra["schedules_trace_validated"] = s["traced_schedules"]
@@ -382,7 +400,7 @@ def _run(ctx):
     s = {}
     if p.returncode == 0:
         s = ctx.collect(ctx.scratch / "stress.res")
-        write_cfg(d / "LogMwTraceT.cfg", "TSpec", _consts(tcl, None, policy="any", keep=False, maxobj=1000000))
+        write_cfg(d / "LogMwTraceT.cfg", "TSpec", _consts(tcl, None, policy="any", keep=False, maxobj=1000000, forms="FormsOrigin"))
         validate_trace(ctx, d, "LogMwTrace", "LogMwTraceT.cfg", "logmw_trace.ndjson",
                        "LogMiddleware event log of the free-running stress", timeout=1500)
         ctx.evaluations += s["requests"]
